@@ -146,6 +146,72 @@ def r16b(ctx, run):
         raise LookupError("writes of thread-local tables from the type evaluator: %d" % n_calls)
 
 
+def per_body_tables(ctx):
+    """field names of the tables R16.a examines (keyed by a location, holding per-body artefacts)"""
+    F = ctx.facts
+    out = set()
+    for a in (F.adts.values() if isinstance(F.adts, dict) else F.adts):
+        if a["path"] not in OWNERS:
+            continue
+        for v in a["variants"]:
+            for fname, fty in v.get("fieldtys", []):
+                t = fty.lstrip("&").replace("'a ", "").replace("mut ", "").strip()
+                head, args = split_generics(t)
+                if re.search(r"(HashMap|HashSet|IndexMap|IndexSet|BTreeMap|TopoSort)$", head) and args and re.search(r"(Concrete\w*Loc|ComptimeLoc)", args[0]):
+                    out.add(fname)
+    return out
+
+
+def r16c(ctx, run):
+    """the VALUE of a key matters as much as its type: a key of a per-body table must not be built from a location whose comptime arguments were
+    erased (`loc.to_naive()` turned back into a concrete location): all instantiations of the surrounding generic function would meet in that entry.
+    Every key handed to insert/get/entry/contains/remove on those tables, and every index of `tys[..]`, is resolved lexically to what it is computed
+    from; `to_naive` may only feed the per-declaration lookups (world_bodies, world_index)."""
+    import prov
+    tables = per_body_tables(ctx) | {"signatures"}
+    if len(tables) < 5:
+        raise LookupError("per-body tables: %s" % sorted(tables))
+    KEYED = ("insert", "get", "get_mut", "entry", "contains_key", "contains", "remove", "insert_dep", "insert_deps")
+    n_keys, n_control = 0, 0
+    for g in ctx.syn.fns_in("hir_ty/src/globals.rs") + ctx.syn.fns_in("hir_ty/src/lib.rs"):
+        if g.body is None or g.in_test:
+            continue
+        P = prov.Prov(g)
+        sites = []
+
+        def on(n, sc):
+            if n.get("k") == "mcall" and n["m"] in KEYED and n["a"]:
+                r = n["r"]
+                base = r
+                while base.get("k") in ("field", "mcall", "ref", "paren", "un") and base.get("k") != "path":
+                    if base.get("k") == "field" and base["m"] in tables:
+                        sites.append((n, sc, base["m"], n["a"][0]))
+                        break
+                    base = base.get("e") or base.get("r") or {}
+            if n.get("k") == "index" and canon(n["e"]) in ("self.tys", "ctx.tys", "self.inner.tys"):
+                sites.append((n, sc, "tys[..]", n["i"]))
+            if n.get("k") == "mcall" and n["m"] in ("global_body", "global_ty", "global_is_extern", "definition", "range_info") and n["a"]:
+                sites.append((n, sc, "<declaration lookup>", n["a"][0]))
+        P.visit(on)
+        for n, sc, table, key in sites:
+            tags = P.tags(key, sc)
+            erased = "m:to_naive" in tags
+            if table == "<declaration lookup>":
+                n_control += 1 if erased else 0
+                continue
+            n_keys += 1
+            if erased:
+                run.finding(g.qual, "key-from-erased-location:" + table, g.file, n["ln"],
+                            "%s uses a key for %s that is computed from `to_naive()` (the location without its comptime arguments): every instantiation of the surrounding generic "
+                            "function reads and writes the same entry, so one instantiation's artefacts are handed to the others (key: %s)" % (g.qual, table, canon(key)[:80]))
+            else:
+                run.ok(g.site(n["ln"]), "%s: key of %s from %s" % (g.qual, table, sorted(t for t in tags if not t.startswith("expr:"))[:3]))
+    if n_keys < 40:
+        raise LookupError("keys of per-body tables resolved: %d" % n_keys)
+    run.check(n_control >= 5, "hir_ty/src/globals.rs:1", "control: %d per-declaration lookups are recognised as fed by to_naive()" % n_control, "<control>", "to_naive-recognised", "hir_ty/src/globals.rs", 1,
+              "the provenance resolution no longer recognises `to_naive()` at the per-declaration lookups (%d sites): the rule would be blind" % n_control)
+
+
 def _reuse(modname, fname):
     def f(ctx, run):
         mod = __import__(modname)
@@ -157,6 +223,7 @@ def rules(ctx):
     return [
         Rule("R16.a", "every table of per-body artefacts is keyed by a location that carries the comptime arguments", 8, r16a),
         Rule("R16.b", "process-global tables written by the type evaluator are not keyed per declaration while holding per-instantiation values", 1, r16b),
+        Rule("R16.c", "no key of a per-body table is computed from a location whose comptime arguments were erased (to_naive)", 40, r16c),
         Rule("R15.f", "a comptime parameter evaluates to the comptime argument at its comptime_idx (shared with C15)", 2, _reuse("c15", "r15f")),
         Rule("R27.a", "the symbol of an instantiation contains its generic id: every Mangle impl forwards all identifying components (shared with C27)", 40, _reuse("c27", "r27a")),
     ]
